@@ -583,3 +583,95 @@ package fpgo
 //@ func DefProduct
 //@   prop C20
 //@   ensures made: isa(r0, ProductType) && as(r0, ProductType).kinds == kinds
+
+// ===================================================================================================
+// C19 - sorting.  sort.SliceStable / sort.Slice are the TRUSTED library contract (see the engine's sortSliceStable): given
+// a less function that is element-determined and a strict weak ordering, the slice becomes an ordered, stable permutation of
+// itself.  What is proved here is that every wrapper hands over the relation and the slice the property names and so
+// inherits: permutation (witness p: new[i] == old[p[i]], p injective into the index range), ordered by the comparator
+// (no element precedes one the comparator places strictly before it), stable (indistinguishable elements keep their order).
+// SWO(f, s): f is a strict weak ordering on the elements of s - the comparator's side of the bargain.
+//@ define SWO(f, s) = forall(i, 0, len(s), !f(s[i], s[i])) && forall2(i, 0, len(s), j, 0, len(s), forall(k, 0, len(s), (f(s[i], s[j]) && f(s[j], s[k]) ==> f(s[i], s[k])) && (!f(s[i], s[j]) && !f(s[j], s[i]) && !f(s[j], s[k]) && !f(s[k], s[j]) ==> !f(s[i], s[k]) && !f(s[k], s[i]))))
+//@ define PERM(s, p) = forall(i, 0, len(s), 0 <= p[i] && p[i] < len(s) && s[i] == oldheap(s[p[i]])) && forall2(i, 0, len(s), j, 0, len(s), i != j ==> p[i] != p[j])
+//@ define ORDERED(f, s) = forall2(i, 0, len(s), j, 0, len(s), i < j ==> !f(s[j], s[i]))
+//@ define STABLE(f, s, p) = forall2(i, 0, len(s), j, 0, len(s), i < j && !f(s[i], s[j]) ==> p[i] < p[j])
+
+//@ func Sort
+//@   prop C19
+//@   modifies input
+//@   ghost p (Array Int Int)
+//@   ghostset p = _sortperm
+//@   requires fn != nil && SWO(fn, input)
+//@   ensures permutation: PERM(input, p)
+//@   ensures ordered: ORDERED(fn, input)
+//@   ensures stable: STABLE(fn, input, p)
+
+//@ func SortSlice
+//@   prop C19
+//@   modifies input
+//@   ghost p (Array Int Int)
+//@   ghostset p = Sort_p
+//@   requires fn != nil && SWO(fn, input)
+//@   ensures in-place: r0 == input
+//@   ensures permutation: PERM(input, p)
+//@   ensures ordered: ORDERED(fn, input)
+//@   ensures stable: STABLE(fn, input, p)
+
+// CompareToOrdered(a, b): positive when a sorts before b
+//@ func CompareToOrdered
+//@   prop C19
+//@   ensures def: r0 == ite(b > a, 1, ite(b < a, 0-1, 0))
+
+//@ func SortOrdered
+//@   prop C19
+//@   modifies input
+//@   ghost p (Array Int Int)
+//@   ghostset p = Sort_p
+//@   ensures in-place: r0 == input
+//@   ensures permutation: PERM(input, p)
+//@   ensures ascending: ascending ==> forall2(i, 0, len(input), j, 0, len(input), i < j ==> input[i] <= input[j])
+//@   ensures descending: !ascending ==> forall2(i, 0, len(input), j, 0, len(input), i < j ==> input[i] >= input[j])
+//@   ensures stable: forall2(i, 0, len(input), j, 0, len(input), i < j && input[i] == input[j] ==> p[i] < p[j])
+//@ func SortOrderedAscending
+//@   prop C19
+//@   modifies input
+//@   ghost p (Array Int Int)
+//@   ghostset p = SortOrdered_p
+//@   ensures in-place: r0 == input
+//@   ensures permutation: PERM(input, p)
+//@   ensures ascending: forall2(i, 0, len(input), j, 0, len(input), i < j ==> input[i] <= input[j])
+//@ func SortOrderedDescending
+//@   prop C19
+//@   modifies input
+//@   ghost p (Array Int Int)
+//@   ghostset p = SortOrdered_p
+//@   ensures in-place: r0 == input
+//@   ensures permutation: PERM(input, p)
+//@   ensures descending: forall2(i, 0, len(input), j, 0, len(input), i < j ==> input[i] >= input[j])
+
+// Stream.Sort sorts a clone: the receiver is not written (frame), the result is fresh and is the ordered, stable
+// permutation of the receiver's items
+//@ func (StreamDef).Sort
+//@   prop C19
+//@   ghost p (Array Int Int)
+//@   ghostset p = Sort_p
+//@   requires streamSelf != nil && fn != nil && SWO(fn, *streamSelf)
+//@   ensures fresh-result: r0 != nil && fresh(r0) && fresh(*r0) && len(*r0) == len(*streamSelf)
+//@   ensures permutation: forall(i, 0, len(*r0), 0 <= p[i] && p[i] < len(*r0) && (*r0)[i] == (*streamSelf)[p[i]]) && forall2(i, 0, len(*r0), j, 0, len(*r0), i != j ==> p[i] != p[j])
+//@   ensures ordered: ORDERED(fn, *r0)
+//@   ensures stable: STABLE(fn, *r0, p)
+//@ twin (StreamDef).Sort (StreamForInterfaceDef).Sort prop C19
+
+// SortByIndex: the result is a permutation of the receiver's items (ordered by the caller's index relation, which is opaque
+// here); the receiver keeps its items in their order
+//@ func (StreamDef).SortByIndex
+//@   prop C19
+//@   modifies streamSelf, *streamSelf
+//@   ghost p (Array Int Int)
+//@   ghostset p = _sortperm
+//@   requires streamSelf != nil && fn != nil
+//@   requires index-relation: forall(i, 0, len(*streamSelf), !fn(i, i)) && forall2(i, 0, len(*streamSelf), j, 0, len(*streamSelf), forall(k, 0, len(*streamSelf), (fn(i, j) && fn(j, k) ==> fn(i, k)) && (!fn(i, j) && !fn(j, i) && !fn(j, k) && !fn(k, j) ==> !fn(i, k) && !fn(k, i))))
+//@   ensures result: r0 != nil && fresh(r0) && len(*r0) == old(len(*streamSelf))
+//@   ensures permutation: forall(i, 0, len(*r0), 0 <= p[i] && p[i] < len(*r0) && (*r0)[i] == oldheap((*old(streamSelf))[p[i]]))
+//@   ensures receiver-keeps-view: len(*streamSelf) == old(len(*streamSelf)) && forall(i, 0, len(*streamSelf), (*streamSelf)[i] == old((*streamSelf)[i]))
+//@ twin (StreamDef).SortByIndex (StreamForInterfaceDef).SortByIndex prop C19
